@@ -264,11 +264,11 @@ impl Prop for Real {
         let kind = self.kind;
         let s = self.schedules;
         let cfg = (
-            (any::<bool>(), 0u8..14, vec(0u8..30, 1..5), 3usize..48, 0u8..6),
-            (1u32..=3, 1usize..=3, 0u8..3, 0u8..3),
+            (any::<bool>(), 0u8..14, vec(prop_oneof![5 => 0u8..30, 1 => 30u8..255], 1..5), 3usize..48, 0u8..6, prop::option::weighted(0.5, 1u8..64)),
+            (1u32..=3, 1usize..=3, 0u8..4, 0u8..3),
             (prop::option::weighted(0.5, 0u8..14), prop::option::weighted(0.4, 0u16..12), any::<bool>(), prop::option::weighted(0.5, 0u16..10), prop::option::weighted(0.5, 0u8..4)),
         )
-            .prop_map(move |((fastq, n_records, sizes, cap, chunk), (n_threads, queue_len, api, work_yields), (bad, stop, ri, di, si))| {
+            .prop_map(move |((fastq, n_records, sizes, cap, chunk, policy_t), (n_threads, queue_len, api, work_yields), (bad, stop, ri, di, si))| {
                 let mut c = RealCfg {
                     fastq,
                     n_records,
@@ -284,6 +284,7 @@ impl Prop for Real {
                     data_init_fail_at: None,
                     rset_init_fail_at: None,
                     work_yields,
+                    policy_t: if api == 2 { policy_t } else { None },
                 };
                 match kind {
                     Kind::C07 | Kind::C16 => {}
@@ -361,7 +362,8 @@ impl Prop for Real {
             ctx.class(match c.cfg.api {
                 0 => "api: parallel_fasta/parallel_fastq",
                 1 => "api: parallel_fasta_init/parallel_fastq_init",
-                _ => "api: read_parallel over RecordSets",
+                2 => "api: read_parallel over RecordSets",
+                _ => "api: parallel_records",
             });
             let n_sets = o.sets.len();
             if o.sets.windows(2).any(|w| w[0].len() != w[1].len()) {
@@ -482,10 +484,12 @@ fn run_kind(kind: Kind, tier: Tier) -> i32 {
     };
     let m = Mock { kind, max_sets, schedules: mock_sched };
     run.replays("mock-reader", &m);
-    run.generated("mock-reader", &m, tier.pick(mock_cases, mock_cases));
+    run.extra.insert("schedule_tier".into(), serde_json::json!(crate::sys::TIER_NAME));
+    let d = crate::sys::WORK_DIVISOR;
+    run.generated("mock-reader", &m, tier.pick(mock_cases / d, mock_cases / d));
     let r = Real { kind, schedules: real_sched };
     run.replays("real-readers", &r);
-    run.generated("real-readers", &r, tier.pick(real_cases, real_cases));
+    run.generated("real-readers", &r, tier.pick(real_cases / d, real_cases / d));
     if matches!(kind, Kind::C07 | Kind::C08 | Kind::C15) {
         dfs_tiny(&mut run, kind, if tier == Tier::Quick { 3_000 } else { 200_000 });
     }
